@@ -2,6 +2,7 @@
   Helper lemmas for C03: round trips of the wire primitives (Model/RespWire.lean).
 -/
 import GoImap.Model.RespWire
+import GoImap.Lemmas.NumSetDigits
 namespace GoImap.Resp
 
 theorem decQuotedTail_esc_char (c : Nat) (r : Str) (_h : c = 34 ∨ c = 92) :
@@ -39,5 +40,236 @@ theorem decQuoted_encQuoted (s rest : Str) : decQuoted (encQuoted s ++ rest) = s
   show decQuoted (34 :: ((escQuoted s ++ [34]) ++ rest)) = _
   rw [List.append_assoc]
   exact decQuotedTail_escQuoted s rest
+
+end GoImap.Resp
+
+namespace GoImap.Resp
+
+/-! ### spans -/
+
+/-- the input that follows does not continue a run of `p` -/
+def StopsAt (p : Nat → Bool) (rest : Str) : Prop := ∀ c t, rest = c :: t → p c = false
+
+theorem StopsAt.nil (p : Nat → Bool) : StopsAt p [] := by intro c t h; cases h
+theorem StopsAt.cons {p : Nat → Bool} {c : Nat} (t : Str) (h : p c = false) : StopsAt p (c :: t) := by
+  intro c' t' e; injection e with e1 _; subst e1; exact h
+
+theorem spanB_append (p : Nat → Bool) (a rest : Str) (ha : ∀ x ∈ a, p x = true) (hr : StopsAt p rest) :
+    spanB p (a ++ rest) = (a, rest) := by
+  induction a with
+  | nil =>
+    cases rest with
+    | nil => rfl
+    | cons c t => simp [spanB, hr c t rfl]
+  | cons x xs ih =>
+    have hx : p x = true := ha x (by simp)
+    have := ih (fun y hy => ha y (by simp [hy]))
+    simp [spanB, hx, this]
+
+/-! ### numbers -/
+
+theorem isDig_toNat {c : Char} (h : NumSet.IsDig c) : isDigitB c.toNat = true ∧ c.toNat - 48 = NumSet.digitVal c := by
+  obtain ⟨k, hk, rfl⟩ := h
+  have : ∀ k, k < 10 → isDigitB (NumSet.dchar k).toNat = true ∧ (NumSet.dchar k).toNat - 48 = NumSet.digitVal (NumSet.dchar k) := by
+    decide
+  exact this k hk
+
+theorem valB_map_toNat (l : List Char) (acc : Nat) :
+    List.foldl (fun n c => n * 10 + (c - 48)) acc (l.map Char.toNat) = List.foldl (fun n c => n * 10 + NumSet.digitVal c) acc l := by
+  induction l generalizing acc with
+  | nil => rfl
+  | cons c t ih => simp only [List.map_cons, List.foldl_cons]; rw [ih]; rfl
+
+theorem encNumber_spec (n : Nat) :
+    valB (encNumber n) = n ∧ (∀ x ∈ encNumber n, isDigitB x = true) ∧ encNumber n ≠ [] := by
+  obtain ⟨h1, h2, h3, _⟩ := NumSet.digits_spec n
+  refine ⟨?_, ?_, ?_⟩
+  · unfold valB encNumber; rw [valB_map_toNat]; exact h1
+  · intro x hx
+    unfold encNumber at hx
+    obtain ⟨c, hc, rfl⟩ := List.mem_map.mp hx
+    exact (isDig_toNat (h2 c hc)).1
+  · unfold encNumber; intro e; exact h3 (List.map_eq_nil_iff.mp e)
+
+theorem decNumber_encNumber (n : Nat) (hn : n < 4294967296) (rest : Str) (hr : StopsAt isDigitB rest) :
+    decNumber (encNumber n ++ rest) = some (n, rest) := by
+  obtain ⟨h1, h2, h3⟩ := encNumber_spec n
+  unfold decNumber
+  rw [spanB_append _ _ _ h2 hr]
+  cases hd : encNumber n with
+  | nil => exact absurd hd h3
+  | cons a l => simp only []; rw [← hd, h1]; simp [hn]
+
+theorem decNumber64_encNumber (n : Nat) (hn : n < 9223372036854775808) (rest : Str) (hr : StopsAt isDigitB rest) :
+    decNumber64 (encNumber n ++ rest) = some (n, rest) := by
+  obtain ⟨h1, h2, h3⟩ := encNumber_spec n
+  unfold decNumber64
+  rw [spanB_append _ _ _ h2 hr]
+  cases hd : encNumber n with
+  | nil => exact absurd hd h3
+  | cons a l => simp only []; rw [← hd, h1]; simp [hn]
+
+/-! ### atoms, SP -/
+
+theorem tryAtom_append (a rest : Str) (hne : a ≠ []) (ha : ∀ x ∈ a, isAtomChar x = true) (hr : StopsAt isAtomChar rest) :
+    tryAtom (a ++ rest) = some (a, rest) := by
+  unfold tryAtom
+  rw [spanB_append _ _ _ ha hr]
+  cases a with
+  | nil => exact absurd rfl hne
+  | cons x xs => rfl
+
+theorem expectSP_sp (c : Nat) (r : Str) (h1 : c ≠ 13) (h2 : c ≠ 10) : expectSP (32 :: c :: r) = some (c :: r) := by
+  simp [expectSP, decSP, h1, h2]
+
+/-! ### literals and strings -/
+
+theorem decCRLF_crlf (r : Str) : decCRLF (13 :: 10 :: r) = some r := by
+  simp [decCRLF]
+
+theorem decLiteral_encLiteral (s rest : Str) (hs : s.length < 9223372036854775808) :
+    decLiteral (encLiteral s ++ rest) = some (s, rest) := by
+  unfold encLiteral encLiteralHdr
+  show decLiteral (123 :: ((encNumber s.length ++ [125, 13, 10]) ++ s ++ rest)) = _
+  have e : (encNumber s.length ++ [125, 13, 10]) ++ s ++ rest = encNumber s.length ++ (125 :: 13 :: 10 :: (s ++ rest)) := by
+    simp [List.append_assoc]
+  rw [e]
+  have hn := decNumber64_encNumber s.length hs (125 :: 13 :: 10 :: (s ++ rest)) (StopsAt.cons _ (by decide))
+  simp only [decLiteral, hn, decCRLF_crlf]
+  simp
+
+theorem decString_encString (utf8 : Bool) (s rest : Str) (hs : s.length < 9223372036854775808) :
+    decString (encString utf8 s ++ rest) = some (s, rest) := by
+  unfold encString
+  by_cases h : validQuoted utf8 s = true
+  · rw [if_pos h]
+    have := decQuoted_encQuoted s rest
+    unfold encQuoted at this ⊢
+    simpa [decString] using this
+  · rw [if_neg h]
+    have := decLiteral_encLiteral s rest hs
+    unfold encLiteral encLiteralHdr at this ⊢
+    simpa [decString] using this
+
+theorem decNString_encNString (utf8 : Bool) (s rest : Str) (hs : s.length < 9223372036854775808)
+    (hr : StopsAt isAtomChar rest) : decNString (encNString utf8 s ++ rest) = some (s, rest) := by
+  unfold encNString
+  cases s with
+  | nil =>
+    simp only [List.isEmpty_nil, if_true]
+    unfold decNString
+    rw [tryAtom_append NILb rest (by decide) (by decide) hr]
+    simp
+  | cons c t =>
+    simp only [List.isEmpty_cons]
+    have hd := decString_encString utf8 (c :: t) rest hs
+    unfold decNString
+    have hnone : tryAtom (encString utf8 (c :: t) ++ rest) = none := by
+      unfold encString
+      by_cases h : validQuoted utf8 (c :: t) = true
+      · rw [if_pos h]; simp [encQuoted, tryAtom, spanB, isAtomChar]
+      · rw [if_neg h]; simp [encLiteral, encLiteralHdr, tryAtom, spanB, isAtomChar]
+    simp [hnone, hd]
+
+end GoImap.Resp
+
+namespace GoImap.Resp
+
+/-! ### parenthesised lists -/
+
+/-- an encoded item starts with a byte that is neither CR, LF nor `)` -/
+def GoodHead (s : Str) : Prop := ∃ c t, s = c :: t ∧ c ≠ 13 ∧ c ≠ 10 ∧ c ≠ 41
+
+/-- what may follow an item inside a list: `)` or SP -/
+def ItemEnd (r : Str) : Prop := (∃ t, r = 41 :: t) ∨ (∃ t, r = 32 :: t)
+
+theorem joinSP_cons_cons (a b : Str) (r : List Str) : joinSP (a :: b :: r) = a ++ 32 :: joinSP (b :: r) := rfl
+
+theorem joinSP_head {α : Type} (enc : α → Str) (y : α) (zs : List α) (tail : Str) (c : Nat) (t : Str) (hc : enc y = c :: t) :
+    ∃ u, joinSP ((y :: zs).map enc) ++ tail = c :: u := by
+  cases zs with
+  | nil => exact ⟨t ++ tail, by simp [joinSP, hc]⟩
+  | cons w ws => exact ⟨t ++ 32 :: joinSP ((w :: ws).map enc) ++ tail, by simp [joinSP_cons_cons, hc]⟩
+
+theorem decListItems_step_last {β : Type} (item : Str → Option (β × Str)) (fuel : Nat) (s rest : Str) (v : β)
+    (h : item s = some (v, 41 :: rest)) : decListItems item (fuel + 1) s = some ([v], rest) := by
+  simp [decListItems, h]
+
+theorem decListItems_step_more {β : Type} (item : Str → Option (β × Str)) (fuel : Nat) (s : Str) (v : β) (c : Nat) (u : Str)
+    (h : item s = some (v, 32 :: c :: u)) (h13 : c ≠ 13) (h10 : c ≠ 10) :
+    decListItems item (fuel + 1) s = (decListItems item fuel (c :: u)).map fun (xs, r) => (v :: xs, r) := by
+  simp [decListItems, h, expectSP_sp c u h13 h10]
+
+theorem decListItems_joinSP {α β : Type} (item : Str → Option (β × Str)) (enc : α → Str) (f : α → β) :
+    ∀ (xs : List α) (fuel : Nat) (rest : Str), xs ≠ [] → xs.length ≤ fuel →
+      (∀ x ∈ xs, ∀ r, ItemEnd r → item (enc x ++ r) = some (f x, r)) →
+      (∀ x ∈ xs, GoodHead (enc x)) →
+      decListItems item fuel (joinSP (xs.map enc) ++ 41 :: rest) = some (xs.map f, rest) := by
+  intro xs
+  induction xs with
+  | nil => intro fuel rest h; exact absurd rfl h
+  | cons x ys ih =>
+    intro fuel rest _ hlen hitem hhead
+    cases fuel with
+    | zero => simp at hlen
+    | succ fuel =>
+      cases ys with
+      | nil =>
+        have hx := hitem x (by simp) (41 :: rest) (Or.inl ⟨rest, rfl⟩)
+        simp only [List.map_cons, List.map_nil, joinSP]
+        exact decListItems_step_last item fuel _ rest (f x) hx
+      | cons y zs =>
+        obtain ⟨c, t, hc, h13, h10, _⟩ := hhead y (by simp)
+        obtain ⟨u, hu⟩ := joinSP_head enc y zs (41 :: rest) c t hc
+        have ih' := ih fuel rest (by simp) (by simp at hlen ⊢; omega)
+          (fun z hz => hitem z (by simp at hz ⊢; exact Or.inr hz)) (fun z hz => hhead z (by simp at hz ⊢; exact Or.inr hz))
+        rw [hu] at ih'
+        have hx := hitem x (by simp) (32 :: c :: u) (Or.inr ⟨_, rfl⟩)
+        have e : joinSP ((x :: y :: zs).map enc) ++ 41 :: rest = enc x ++ 32 :: c :: u := by
+          simp only [List.map_cons] at hu ⊢
+          rw [joinSP_cons_cons, List.append_assoc, List.cons_append, hu]
+        rw [e, decListItems_step_more item fuel _ (f x) c u hx h13 h10, ih']
+        rfl
+
+theorem length_le_joinSP {α : Type} (enc : α → Str) : ∀ (xs : List α), (∀ x ∈ xs, GoodHead (enc x)) →
+    xs.length ≤ (joinSP (xs.map enc)).length + 1 := by
+  intro xs
+  induction xs with
+  | nil => intro _; simp
+  | cons x ys ih =>
+    intro h
+    cases ys with
+    | nil => simp
+    | cons y zs =>
+      have := ih (fun z hz => h z (by simp at hz ⊢; exact Or.inr hz))
+      simp only [List.map_cons] at this ⊢
+      rw [joinSP_cons_cons]
+      simp only [List.length_cons, List.length_append] at this ⊢
+      omega
+
+theorem decList_encList {α β : Type} (item : Str → Option (β × Str)) (enc : α → Str) (f : α → β) (xs : List α) (rest : Str)
+    (hitem : ∀ x ∈ xs, ∀ r, ItemEnd r → item (enc x ++ r) = some (f x, r))
+    (hhead : ∀ x ∈ xs, GoodHead (enc x)) :
+    decList item (encList (xs.map enc) ++ rest) = some (xs.map f, rest) := by
+  unfold encList
+  cases xs with
+  | nil => simp [joinSP, decList]
+  | cons x ys =>
+    obtain ⟨c, t, hc, _, _, h41⟩ := hhead x (by simp)
+    obtain ⟨u, hu⟩ := joinSP_head enc x ys (41 :: rest) c t hc
+    have hlen := length_le_joinSP enc (x :: ys) hhead
+    have e : 40 :: (joinSP ((x :: ys).map enc) ++ [41]) ++ rest = 40 :: c :: u := by
+      rw [← hu]; simp
+    rw [e]
+    have hmain := decListItems_joinSP item enc f (x :: ys) ((c :: u).length + 1) rest (by simp)
+      (by rw [← hu]; simp only [List.length_append, List.length_cons] at hlen ⊢; omega) hitem hhead
+    rw [hu] at hmain
+    have : decList item (40 :: c :: u) = decListItems item ((c :: u).length + 1) (c :: u) := by
+      unfold decList
+      split
+      · rename_i heq; injection heq with _ h2; injection h2 with h3 _; exact absurd h3 h41
+      · rename_i heq; injection heq with _ h2; subst h2; rfl
+      · rename_i _ hne; exact absurd rfl (hne (c :: u))
+    rw [this, hmain]
 
 end GoImap.Resp
